@@ -79,31 +79,26 @@ func (c *ThrottlingChecker) DoCheck(_ base.StatNode, batchCount uint32, threshol
 	// The interval between two requests (in nanoseconds).
 	intervalNs := int64(math.Ceil(float64(batchCount) / threshold * float64(c.statIntervalNs)))
 
-	loadedLastPassedTime := atomic.LoadInt64(&c.lastPassedTime)
-	// Expected pass time of this request.
-	expectedTime := loadedLastPassedTime + intervalNs
-	if expectedTime <= curNano {
-		if swapped := atomic.CompareAndSwapInt64(&c.lastPassedTime, loadedLastPassedTime, curNano); swapped {
-			// nil means pass
-			return nil
+	// Claim the pass time with a CAS loop on the value the decision was computed from.
+	// (Adding the interval first and rolling it back when the queue turned out to be too
+	// long exposed transient timestamps to concurrent callers: a caller whose fast-path
+	// CAS failed because of such a transient could pass immediately while recording a
+	// pass time in the past, so that the next caller was not spaced from it.)
+	for {
+		loadedLastPassedTime := atomic.LoadInt64(&c.lastPassedTime)
+		expectedTime := loadedLastPassedTime + intervalNs
+		if expectedTime <= curNano {
+			if atomic.CompareAndSwapInt64(&c.lastPassedTime, loadedLastPassedTime, curNano) {
+				return nil
+			}
+			continue
 		}
-	}
-
-	estimatedQueueingDuration := atomic.LoadInt64(&c.lastPassedTime) + intervalNs - curNano
-	if estimatedQueueingDuration > c.maxQueueingTimeNs {
-		return base.NewTokenResultBlockedWithCause(base.BlockTypeFlow, BlockMsgQueueing, rule, nil)
-	}
-
-	oldTime := atomic.AddInt64(&c.lastPassedTime, intervalNs)
-	estimatedQueueingDuration = oldTime - curNano
-	if estimatedQueueingDuration > c.maxQueueingTimeNs {
-		// Subtract the interval.
-		atomic.AddInt64(&c.lastPassedTime, -intervalNs)
-		return base.NewTokenResultBlockedWithCause(base.BlockTypeFlow, BlockMsgQueueing, rule, nil)
-	}
-	if estimatedQueueingDuration > 0 {
-		return base.NewTokenResultShouldWait(time.Duration(estimatedQueueingDuration))
-	} else {
-		return base.NewTokenResultShouldWait(0)
+		estimatedQueueingDuration := expectedTime - curNano
+		if estimatedQueueingDuration > c.maxQueueingTimeNs {
+			return base.NewTokenResultBlockedWithCause(base.BlockTypeFlow, BlockMsgQueueing, rule, nil)
+		}
+		if atomic.CompareAndSwapInt64(&c.lastPassedTime, loadedLastPassedTime, expectedTime) {
+			return base.NewTokenResultShouldWait(time.Duration(estimatedQueueingDuration))
+		}
 	}
 }
